@@ -546,6 +546,7 @@ class AsyncScalarResult(AsyncCommon[_R]):
 
         self._unique_filter_state = real_result._unique_filter_state
 
+    @_generative
     def unique(
         self,
         strategy: Optional[_UniqueFilterType] = None,
@@ -672,6 +673,7 @@ class AsyncMappingResult(_WithKeys, AsyncCommon[RowMapping]):
         if result._source_supports_scalars:
             self._metadata = self._metadata._reduce([0])
 
+    @_generative
     def unique(
         self,
         strategy: Optional[_UniqueFilterType] = None,
